@@ -5,8 +5,11 @@ package sm4_test
 
 import (
 	"bytes"
+	"crypto/cipher"
 	"fmt"
+	"runtime"
 	"testing"
+	"time"
 
 	"github.com/bilibili/smgo/sm4"
 	"pgregory.net/rapid"
@@ -42,7 +45,7 @@ func c05Key(t *rapid.T, label string) ([]byte, string) {
 
 func TestVerif_C05_Block(t *testing.T) {
 	rec := stats.Get("C05", "block")
-	rec.Rule("rapid: key from {uniform, all-00, all-FF, single bit, extreme bytes, the standard's sample}; block uniform / extreme; through sm4.NewCipher: Encrypt, Decrypt, dst==src aliasing, dst and src as sub-slices at a drawn offset, key slice overwritten after construction; key lengths 0..40 for the rejection rule. Oracle: sm4ref (algebraic S-box, anchored to GB/T 32907 A.1/A.2 incl. the 10^6-fold iteration); Decrypt(Encrypt(x)) = x; inputs unmodified. Non-trivial: decrypt or aliasing or a non-sample key; distinct by (key, block, mode).")
+	rec.Rule("rapid: key from {uniform, all-00, all-FF, single bit, extreme bytes, the standard's sample}; block uniform / extreme; through sm4.NewCipher: Encrypt, Decrypt, dst==src aliasing, dst and src as sub-slices at a drawn offset, key slice overwritten after construction; an object history before the block operation (AEADs derived from the same Block via cipher.NewGCM*, used for a Seal/Open, or dropped and garbage-collected while the Block lives on, or an earlier Encrypt/Decrypt); key lengths 0..40 for the rejection rule. Oracle: sm4ref (algebraic S-box, anchored to GB/T 32907 A.1/A.2 incl. the 10^6-fold iteration); Decrypt(Encrypt(x)) = x; inputs unmodified. Non-trivial: decrypt or aliasing or a non-sample key; distinct by (key, block, mode).")
 	t.Cleanup(stats.FlushAll)
 	rapid.Check(t, func(t *rapid.T) {
 		key, kcls := c05Key(t, "key")
@@ -62,6 +65,38 @@ func TestVerif_C05_Block(t *testing.T) {
 			for i := range keyCopy {
 				keyCopy[i] ^= 0xff
 			}
+		}
+		// history on the object: AEADs may have been derived from this Block (and used) before the block operation
+		hist := gen.Pick(t, "history", "fresh", "fresh", "newgcm", "newgcm+seal", "enc-first", "dec-first", "newgcm-dropped+gc")
+		switch hist {
+		case "newgcm", "newgcm+seal":
+			var a cipher.AEAD
+			var aerr error
+			if gen.Bool(t, "nonstd") {
+				a, aerr = cipher.NewGCMWithNonceSize(c, 16)
+			} else {
+				a, aerr = cipher.NewGCM(c)
+			}
+			if aerr == nil && hist == "newgcm+seal" {
+				ct := a.Seal(nil, make([]byte, a.NonceSize()), []byte("history"), nil)
+				a.Open(nil, make([]byte, a.NonceSize()), ct, nil)
+			}
+		case "newgcm-dropped+gc":
+			// AEADs derived from the Block become unreachable and are collected (finalizers run) while the Block lives on
+			func() {
+				for i := 0; i < 2; i++ {
+					if a, aerr := cipher.NewGCM(c); aerr == nil {
+						a.Seal(nil, make([]byte, 12), []byte("x"), nil)
+					}
+				}
+			}()
+			runtime.GC()
+			runtime.GC()
+			time.Sleep(200 * time.Microsecond)
+		case "enc-first":
+			c.Encrypt(make([]byte, 16), blk)
+		case "dec-first":
+			c.Decrypt(make([]byte, 16), blk)
 		}
 		ref := sm4ref.New(key)
 		wantE, wantD := make([]byte, 16), make([]byte, 16)
@@ -88,7 +123,7 @@ func TestVerif_C05_Block(t *testing.T) {
 			vt.Fail(t, rec, "C05:block:panic", "%s panicked: %v", mode, p)
 			return
 		}
-		rec.Case(stats.Hash(key, blk, []byte(mode)), mode != "enc" || kcls != "sample", "key:"+kcls, "mode:"+mode)
+		rec.Case(stats.Hash(key, blk, []byte(mode+hist)), mode != "enc" || kcls != "sample", "key:"+kcls, "mode:"+mode, "history:"+hist)
 		if rec.WantSample(mode) {
 			rec.Sample(mode, map[string]interface{}{"key": stats.Hex(key), "block": stats.Hex(blk), "mode": mode, "want": stats.Hex(want)})
 		}
